@@ -61,6 +61,10 @@ type c15Cycle struct {
 	// templates and sFlow / NetFlow v5 datagrams, is sent the cycle's signal and must stop as cleanly as any other —
 	// and must not cost the templates acknowledged in earlier cycles
 	IdleProducerLife bool `json:"idle_producer_life,omitempty"`
+	// Saturate (with Inflight): the traffic that continues through the shutdown window is dense (data datagrams of
+	// about 1300 octets, dozens of records each) and unpaced, so that the receive queue is full when the signal
+	// arrives: a collector under more load than it can decode must stop as cleanly as an idle one
+	Saturate bool `json:"saturate,omitempty"`
 }
 
 type c15Case struct {
@@ -84,7 +88,7 @@ type c15Case struct {
 
 const c15Rule = "case = 1..3 stop/start cycles of the real collector binary (each instance with all CPUs or its affinity restricted to 1, 2, 4 or 8; 2..8 workers per protocol; in about 3 of 4 cases a generated subset of the four protocols is switched off by configuration, at least one of IPFIX / NetFlow v9 stays on; rawSocket sink and restful stats owned by the harness, per-instance pid and cache files (in a quarter of the cases given as relative names with a working directory other than the configuration's), in a quarter of the cases on a file system other than the temporary directory's) with 1..8 exporters on 127.0.0.x and ::1 (in a quarter of the cases without ::1 the listeners are bound to 127.0.0.1, so that the collector sees 4-octet exporter addresses): " +
 	"per cycle new IPFIX / NetFlow v9 templates are announced (or all known ones redefined with a shorter definition, so that the next cache file is shorter than the one it replaces; or, in a quarter of the later cycles, a quiet life: nothing new, one known template re-announced with a single specifier changed — a scope field if it has any) and acknowledged (a data message using them reached the sink), sFlow/NetFlow v5 noise, in 1 cycle of 7 a further exporter announcing 1500 or 3000 templates first (a cache file well above a megabyte), a data burst, then SIGTERM or SIGINT after a drawn delay (in 5 of 8 cycles sent once, otherwise repeated 1..1100 ms later), " +
-	"optionally with traffic (data and announcements of fresh template ids) continuing through the shutdown window, or with single late datagrams 0.9..2.1 s after the signal following a quiet period; in a fifth of the later cycles the collector first lives once with producer-enabled: false (data, sFlow and NetFlow v5 datagrams, the cycle's signal: exit 0 within 6 s); in a quarter of the later cycles an instance is first started while one of its UDP ports is held by another process (and signalled 1.2 s later if still there); a final verification restart follows the last cycle; " +
+	"optionally with traffic (data and announcements of fresh template ids; in a quarter of those cycles dense and unpaced, so that the receive queue is full at the signal) continuing through the shutdown window, or with single late datagrams 0.9..2.1 s after the signal following a quiet period; in a fifth of the later cycles the collector first lives once with producer-enabled: false (data, sFlow and NetFlow v5 datagrams, the cycle's signal: exit 0 within 6 s); in a quarter of the later cycles an instance is first started while one of its UDP ports is held by another process (and signalled 1.2 s later if still there); a final verification restart follows the last cycle; " +
 	"oracle per cycle = exit status 0 within 6 s of the signal, stderr free of panic / fatal error / concurrent map, both cache files exist, load and decode data for every acknowledged (exporter,id) to the reference decode, " +
 	"and after the restart data sent WITHOUT templates for every acknowledged (exporter,id) is published with the reference payload; " +
 	"non-trivial = a cycle with >= 1 acknowledged template and traffic in flight at the signal; distinct by hash"
@@ -202,6 +206,7 @@ func genC15(t *rapid.T) c15Case {
 		cy.DelayMS = rapid.SampledFrom([]int{0, 0, 1, 10, 100}).Draw(t, "delay")
 		cy.Inflight = rapid.IntRange(0, 2).Draw(t, "inflight") > 0 && !retouch
 		if cy.Inflight {
+			cy.Saturate = rapid.IntRange(0, 3).Draw(t, "saturate") == 0
 			nf := rapid.IntRange(0, 12).Draw(t, "nfresh")
 			for k := 0; k < nf; k++ {
 				cy.Fresh = append(cy.Fresh, genKey())
@@ -336,6 +341,9 @@ func runC15(c *c15Case) (v verdict, sig string, err error) {
 		cpus := 0
 		if !verification {
 			cpus = c.Cycles[ci].CPUs
+			if c.Cycles[ci].Saturate {
+				cpus = 1 // one processor is easy to saturate without starving the rest of the machine
+			}
 			v.label(cpus > 0, "restricted-cpu-set")
 		}
 		if !verification && c.Cycles[ci].BusyStart && len(acked) > 0 {
@@ -395,7 +403,7 @@ func runC15(c *c15Case) (v verdict, sig string, err error) {
 				sigNo = syscall.SIGINT
 			}
 			lp.signal(sigNo)
-			if !lp.waitExit(6 * time.Second) {
+			if !lp.waitExitFair(6 * time.Second) {
 				lp.kill()
 				return v, "no-exit", fmt.Errorf("cycle %d: a collector running with producer-enabled: false (data, sFlow and NetFlow v5 datagrams received) is still running 6 s after SIG%s; log tail: %s", ci, c.Cycles[ci].Signal, tail(lp.stderrText(), 600))
 			}
@@ -439,7 +447,7 @@ func runC15(c *c15Case) (v verdict, sig string, err error) {
 		}
 		if verification {
 			proc.signal(syscall.SIGTERM)
-			if !proc.waitExit(6 * time.Second) {
+			if !proc.waitExitFair(6 * time.Second) {
 				return fail("no-exit", "collector did not exit within 6 s of SIGTERM (verification restart)")
 			}
 			if proc.status != nil {
@@ -541,6 +549,22 @@ func runC15(c *c15Case) (v verdict, sig string, err error) {
 		var twg sync.WaitGroup
 		if cy.Inflight {
 			twg.Add(1)
+			// dense variants of the acknowledged keys (records repeated up to about 1300 octets)
+			var dense []*c15Key
+			if cy.Saturate {
+				for _, k := range acked {
+					one := len(r.dataMsgNoSeq(k, 0))
+					if one < 20 || one > 1300 || len(k.Recs) == 0 {
+						continue
+					}
+					kk := *k
+					for n := 1300 / (one - 16); n > 1; n-- {
+						kk.Recs = append(kk.Recs, k.Recs...)
+					}
+					dense = append(dense, &kk)
+				}
+				v.label(len(dense) > 0, "saturating-traffic-through-shutdown")
+			}
 			go func() {
 				defer twg.Done()
 				i := 0
@@ -549,6 +573,15 @@ func runC15(c *c15Case) (v verdict, sig string, err error) {
 					case <-stopTraffic:
 						return
 					default:
+					}
+					if len(dense) > 0 {
+						k := dense[i%len(dense)]
+						r.exps[k.Exp].send(proc.port(k.Proto), r.dataMsgNoSeq(k, i))
+						i++
+						if i%80 == 0 {
+							time.Sleep(time.Millisecond) // up to 80 000 datagrams a second: more than one processor decodes
+						}
+						continue
 					}
 					if i < len(cy.Fresh) {
 						k := &cy.Fresh[i]
@@ -565,6 +598,9 @@ func runC15(c *c15Case) (v verdict, sig string, err error) {
 				}
 			}()
 			time.Sleep(5 * time.Millisecond)
+			if len(dense) > 0 {
+				time.Sleep(400 * time.Millisecond) // let the receive queue fill
+			}
 		}
 		if cy.DelayMS > 0 {
 			time.Sleep(time.Duration(cy.DelayMS) * time.Millisecond)
@@ -610,7 +646,7 @@ func runC15(c *c15Case) (v verdict, sig string, err error) {
 				}
 			}()
 		}
-		exited := proc.waitExit(6 * time.Second)
+		exited := proc.waitExitFair(6 * time.Second)
 		if exited && len(cy.LateMS) > 0 {
 			// let the late senders finish their schedule only if the process is still there
 		}
